@@ -55,6 +55,9 @@ pub fn make_where_clause<'a>(
     // Lifetime parameters always have to be `'static`, with or without custom bounds: the
     // `TypeInfo::Identity` of the type must be `'static`.
     for lifetime in generics.lifetimes() {
+        // only the lifetime itself: a parameter declared with bounds (`'b: 'a`) would otherwise be
+        // spliced in as `'b: 'a: 'static`, which does not parse
+        let lifetime = &lifetime.lifetime;
         where_clause
             .predicates
             .push(parse_quote!(#lifetime: 'static))
